@@ -62,5 +62,38 @@ def run(tier="quick", seed=0):
     v, _ = validate_trace("Trace_BoxHit", recs)
     got = [st["verdict"] for _, st in v]
     bad += expect("Trace_BoxHit verdicts ok / mismatch / ok / mismatch", got == ["ok", "mismatch", "ok", "mismatch"], got)
+    # Trace_World: a driver history is accepted; the same history with one corrupted observation / an impossible step is not
+    import copy as _c
+    import json
+    import os
+    import random
+    import tempfile
+    import dask
+    from . import c04, world
+    from .tlaval import iter_dump
+    from .tlc import scratch
+    cats = c04.catalogues()
+    kind, cat, kind2, cat2, rkind, rcat = world.CONFIGS[0]
+    tmp = tempfile.mkdtemp(prefix="selftest-", dir=os.environ.get("TMPDIR") or "/var/tmp")
+    with dask.config.set(scheduler="synchronous"):
+        rng = random.Random(5)
+        tr = [world.drive((kind, kind2), (cats[cat], cats[cat2]), rkind, cats[rcat], rng, 5, 10, tmp, f"s{k}", {}) for k in range(3)]
+    t1, t2, t3 = _c.deepcopy(tr[0]), _c.deepcopy(tr[1]), _c.deepcopy(tr[2])
+    for e in t1["ev"]:
+        if e["op"] in ("ids", "cx", "intersects_bounds", "sindex_intersects"):
+            e["val"] = sorted(set(e["val"]) ^ {1})
+            break
+    t2["ev"].insert(0, dict(op="compute", a=0, b=0, val=[]))
+    t3["rows"][0][1] = t3["rows"][0][1] % len(cats[cat]) + 1          # another element in the first row: later observations no longer fit
+    wd = scratch("selftest-world")
+    path = os.path.join(wd, "t.json")
+    json.dump(tr + [t1, t2], open(path, "w"))
+    r = run_tlc("Trace_World", cfg=dict(spec="TSpec", constants=dict(Kind1=kind, Elems1="<- " + cat, Kind2=kind2, Elems2="<- " + cat2, RKind=rkind, RElems="<- " + rcat,
+                                                                     N=8, MaxOps=99, Bias="none")), env={"TRACE_FILE": path}, workers=2, dump=True, timeout=3000)
+    acc = {st["tid"] for st in iter_dump(r.dump) if st["verdict"] == "accepted"}
+    bad += expect("Trace_World accepts the recorded driver histories", {1, 2, 3} <= acc, acc)
+    bad += expect("Trace_World rejects a corrupted observation and an impossible step", not ({4, 5} & acc), acc)
+    import shutil
+    shutil.rmtree(tmp, ignore_errors=True)
     print("selftest:", "all passed" if not bad else f"{bad} FAILED")
     return 1 if bad else 0
